@@ -352,7 +352,8 @@ def run(ctx):
             toks = gen.rand_path_tokens(rng, maxseg=rng.randint(1, 3), alpha='aB.x', depth=rng.randint(0, 2))
             if gen.ambiguous_adjacency(toks):
                 continue
-            extra = ('EXTMATCH',) + (('GLOBSTAR',) if k % 4 == 0 else ()) + (('DOTMATCH',) if k % 8 < 4 else ())
+            extra = ('EXTMATCH',) + (('GLOBSTAR',) if k % 4 == 0 else ()) + (('DOTMATCH',) if k % 8 < 4 else ()) + \
+                (('NODIR',) if k % 5 == 0 else ()) + (('MATCHBASE',) if k % 6 == 2 else ())
             with ctx.case(label=gen.ser(toks)):
                 check_pattern(ctx, toks, True, extra, k, gen.path_universe(toks, rng, cap=120), bytes_too=(k % 6 == 0))
         if k % 3 == 0:
